@@ -16,7 +16,7 @@ CHECKS = {
    note="Type and constant inventory comes from go/types on types.go; the regeneration driver is added by build overlay (nothing written to /repo).",
    technique="exhaustive input enumeration + regeneration (translation) comparison", ref="3 C20"),
  "C08": dict(level="model_checking",
-   text="Explicit exploration of call histories: every sequence up to the bound over a 37-call pool chosen to collide on package-level state (incl. near-twin inputs that differ only in a detail a lossy cache key would conflate), each history executed in its own fresh process; every position must return what the same call returns when made first in a fresh process, and solo calls are repeated across processes (Encode determinism). Behavioural states (vectors of one-step futures) are counted: a pure implementation has exactly one.",
+   text="Explicit exploration of call histories: every sequence up to the bound over a 39-call pool chosen to collide on package-level state (incl. near-twin inputs that differ only in a detail a lossy cache key would conflate), each history executed in its own fresh process; every position must return what the same call returns when made first in a fresh process, and solo calls are repeated across processes (Encode determinism). Behavioural states (vectors of one-step futures) are counted: a pure implementation has exactly one.",
    note="Fresh-process baseline means no in-process reset has to be trusted. The package-level distance accumulator (listed finding) is shadowed and attributed exactly. Map-iteration nondeterminism is observed through repeated fresh-process runs, not enumerated.",
    technique="explicit-state exploration of call histories with a fresh-process differential oracle", ref="3 C08"),
  "C09": dict(level="model_checking",
@@ -100,6 +100,9 @@ _ENV = {
 for _id, _ks in {"C01": ["procs"], "C02": ["tz"], "C04": ["procs"], "C05": ["procs"], "C06": ["tz", "procs"], "C07": ["procs"], "C08": ["procs", "env"], "C10": ["env"], "C11": ["procs"], "C12": ["tz"], "C14": ["procs"], "C17": ["tz"]}.items():
     for _k in _ks:
         CHECKS[_id]["text"] += _ENV[_k]
+_LONG = " Depth beyond the word bound is reached by long runs: a short unit repeated N times for N around 2^8, 2^12, 2^16 (see DESIGN 0.5 (13))."
+for _id in ("C01", "C02", "C03", "C05", "C06", "C07", "C10", "C11", "C12", "C13", "C14", "C15", "C16", "C17", "C18", "C20"):
+    CHECKS[_id]["text"] += _LONG
 CHECKS["C05"]["text"] += " Expected wire values are computed from the File before Encode is called; array fields are also given as sub-slices of one shared backing array."
 CHECKS["C06"]["text"] += " Reference values come from a second identical File that Encode never sees; every seventh File follows two failing Encode calls."
 CHECKS["C07"]["text"] += " Generation 1 is taken from a second decode that Encode never sees."
